@@ -2,12 +2,16 @@ package props
 
 import (
 	"math"
+	"os"
+	"path/filepath"
 	"strings"
 	"testing"
 	"unicode"
 	"unicode/utf8"
 
 	"github.com/Vedant9500/WTF/internal/validation"
+	"github.com/Vedant9500/WTF/verifharness/gen"
+	"github.com/Vedant9500/WTF/verifharness/proc"
 	"github.com/Vedant9500/WTF/verifharness/stat"
 	"pgregory.net/rapid"
 )
@@ -242,5 +246,87 @@ func TestC14_Limit(t *testing.T) {
 			t.Fatalf("ValidateLimit(0) = %d, %v", v, err)
 		}
 		rec.Case(n >= -1 && n <= 101, map[string]any{"limit": n, "value": v, "accepted": err == nil}, "limit")
+	})
+}
+
+// c14CLIQuery draws argv words for the binary: natural-language questions with punctuation
+// and stray blanks, plus pieces from the validation generator (no NUL: argv cannot carry it).
+func c14CLIQuery(t *rapid.T) []string {
+	w := rapid.SampledFrom([]string{"how", "do", "I", "compress", "files", "list", "directory", "what", "is", "this", "disk", "usage", "tar", "find"})
+	punct := rapid.SampledFrom([]string{"?", "!", ".", "...", "??", " ?", "? ", " ? ?", ",", ":", "'", "\"", ")", "-", "--", "#", "%", "*", "~", "\\"})
+	var words []string
+	switch rapid.IntRange(0, 5).Draw(t, "cli-shape") {
+	case 0: // a question, punctuation at the end
+		words = []string{gen.TextOf(w, 1, 5).Draw(t, "sentence") + punct.Draw(t, "end")}
+	case 1: // punctuation only
+		words = []string{rapid.StringOfN(rapid.RuneFrom([]rune("?!.,:'\")(-#%*~ ")), 1, 5, -1).Draw(t, "punct-only")}
+	case 2: // several argv words, punctuation as words of their own
+		words = rapid.SliceOfN(rapid.OneOf(w, punct), 1, 6).Draw(t, "argv")
+	case 3: // punctuation in front and inside
+		words = []string{punct.Draw(t, "front") + gen.TextOf(rapid.OneOf(w, punct), 1, 5).Draw(t, "mixed")}
+	default:
+		words = []string{c14Gen().Draw(t, "raw")}
+	}
+	for i := range words {
+		words[i] = strings.ReplaceAll(words[i], "\x00", "")
+		if len(words[i]) > 1200 {
+			words[i] = words[i][:1200]
+		}
+	}
+	return words
+}
+
+// TestC14_CLI: validation is the first step of every search of the built binary, and what
+// is searched (the 'Searching for:' line, the recorded history entry) is the validated query.
+func TestC14_CLI(t *testing.T) {
+	needWtf(t)
+	rec := stat.For("C14")
+	rec.Rule("built binary in an isolated HOME: argv words from natural-language questions with leading / trailing / interior punctuation (? ! . , quotes ...), punctuation-only queries, several argv words, and the validation generator's byte strings (NUL removed), invoked as `wtf q` and `wtf search q`. Oracle: a query the validator rejects prints no 'Searching for:' line and records nothing; an accepted one prints exactly 'Searching for: <ValidateQuery(q)>' and the newest history entry is that string - so what is searched is clean in the sense checked on ValidateQuery. Non-trivial = accepted and the cleaned query differs from the joined argv.")
+	rapid.Check(t, func(t *rapid.T) {
+		dir := mkdirWork("c14-")
+		defer os.RemoveAll(dir)
+		h, _ := proc.NewHome(dir)
+		dbp := filepath.Join(dir, "db.yml")
+		os.WriteFile(dbp, gen.EmitYAML(c08Main), 0o644)
+		words := c14CLIQuery(t)
+		joined := strings.Join(words, " ")
+		var args []string
+		if rapid.Bool().Draw(t, "sub") {
+			args = append(args, "search")
+		}
+		args = append(args, "-d", dbp, "--no-color", "--")
+		args = append(args, words...)
+		r := runWtf(h, dir, args)
+		if r.Panicked() || r.Signaled || r.TimedOut || (r.ExitCode != 0 && r.ExitCode != 1) {
+			t.Fatalf("wtf %+q crashed (exit %d): %s %s", args, r.ExitCode, clip(r.Stdout), clip(r.Stderr))
+		}
+		msg, acc, cleaned := c14Check(joined)
+		if msg != "" {
+			t.Fatalf("%s\n input %+q output %+q", msg, clip(joined), clip(cleaned))
+		}
+		hist := histEntries(h.History())
+		if !acc {
+			if strings.Contains(r.Stdout, "Searching for:") {
+				t.Fatalf("the validator rejects %+q but the binary searched it:\n%s", clip(joined), clip(r.Stdout))
+			}
+			if len(hist) != 0 {
+				t.Fatalf("a rejected query was recorded in the history: %+v", hist)
+			}
+			rec.Case(false, map[string]any{"cli": true, "argv": clip(joined), "accepted": false}, "cli", "cli-rejected")
+			return
+		}
+		if !strings.Contains(r.Stdout, "Searching for: "+cleaned+"\n") {
+			line := ""
+			for _, l := range strings.Split(r.Stdout, "\n") {
+				if strings.HasPrefix(l, "Searching for:") {
+					line = l
+				}
+			}
+			t.Fatalf("argv %+q validates to %+q, but the binary reports %+q (the searched query is not the validated one)\n%s", clip(joined), clip(cleaned), line, clip(r.Stdout))
+		}
+		if len(hist) != 1 || hist[0].Query != jsonRoundTrip(cleaned) {
+			t.Fatalf("argv %+q validates to %+q, but the history records %+v", clip(joined), clip(cleaned), hist)
+		}
+		rec.Case(cleaned != joined, map[string]any{"cli": true, "argv": clip(joined), "accepted": true, "searched": clip(cleaned)}, "cli", "cli-accepted")
 	})
 }
